@@ -13,6 +13,8 @@ UNIT = {
     'verus_args': ['--edition=2024'],
     'vacuity_floor': 2,
     'items': [
+        # crate::expansion::Result as the signature of expand_words names it
+        ('@raw', 'pub mod expansion { pub type Result<T> = std::result::Result<T, crate::sc::ExpError>; }\n'),
         ('@raw', 'pub mod sc {\n' + MOD_HEAD),
         ('@file', 'prelude.rs'),
         (SC, ["impl<S: Runtime + 'static> Command<S> for syntax::SimpleCommand", 'fn execute'], {'ret': 'r', 'rewrites': ['strip-async'],
@@ -25,11 +27,38 @@ UNIT = {
                 'Kind::AbsentK => ' + M1 + '.classified == ' + M0 + '.classified, '
                 'Kind::BuiltinK => ' + M1 + '.classified matches Some(Kind::BuiltinK), Kind::FunctionK => ' + M1 + '.classified matches Some(Kind::FunctionK), Kind::ExternalK => ' + M1 + '.classified matches Some(Kind::ExternalK) })',
                 M1 + '.executed.len() == ' + M0 + '.executed.len() ==> ' + M1 + '.handled_errors == ' + M0 + '.handled_errors + 1 && ' + M1 + '.errexit_consulted == ' + M0 + '.errexit_consulted',
+                # XCU 2.9.1: a command without a name starts from the status of the last command substitution performed in its words (0 if none)
+                M1 + '.executed.len() == ' + M0 + '.executed.len() + 1 && ' + M1 + '.executed.last() is AbsentK ==> ' + M1 + '.absent_status == Some(match last_word_status(' + M1 + '.wlog, ' + M0 + '.wlog.len() as int, self.words@.len() as int) { Some(s) => s, None => ExitStatus(0) })',
                 # C10: errexit is consulted after the command, exactly once, unless the command itself diverted
                 M1 + '.errexit_consulted <= ' + M0 + '.errexit_consulted + 1',
                 'r is Continue ==> ' + M1 + '.errexit_consulted == ' + M0 + '.errexit_consulted + 1 || ' + M1 + '.executed.len() == ' + M0 + '.executed.len()',
                 M1 + '.errexit_consulted == ' + M0 + '.errexit_consulted + 1 ==> ' + M1 + '.executed.len() == ' + M0 + '.executed.len() + 1',
             ]}),
+        (SC, ['fn expand_words'], {'ret': 'r', 'rewrites': ['strip-async'],
+            'attrs': ['#[verifier::loop_isolation(false)]'],
+            'token_rewrites': [
+                # a tuple pattern in the loop header = the two projections of the element
+                ('for ( word , mode ) in words', 'for verif_wm in verif_it: words'),
+            ],
+            'ensures': [
+                # nothing but the expansion of words happens here
+                M1 + ' == (Mon { wlog: ' + M1 + '.wlog, ..' + M0 + ' })',
+                'forall|k: int| 0 <= k < ' + M0 + '.wlog.len() ==> #[trigger] ' + M1 + '.wlog[k] == ' + M0 + '.wlog[k]',
+                # the words are expanded in order, each once, up to the first one that fails
+                'r matches Ok(p) ==> ' + M1 + '.wlog.len() == ' + M0 + '.wlog.len() + words@.len() && (forall|k: int| 0 <= k < words@.len() ==> (#[trigger] ' + M1 + '.wlog[' + M0 + '.wlog.len() + k]).what == words@[k].0.verif_id && ' + M1 + '.wlog[' + M0 + '.wlog.len() + k].outcome is Ok)',
+                # XCU 2.9.1: the status handed on is that of the LAST command substitution performed in any of the words, None if none
+                'r matches Ok(p) ==> p.1 == last_word_status(' + M1 + '.wlog, ' + M0 + '.wlog.len() as int, words@.len() as int)',
+                'r is Err ==> ' + M1 + '.wlog.len() > ' + M0 + '.wlog.len() && ' + M1 + '.wlog.last().outcome is Err',
+            ],
+            'loops': {0: {'body_start': 'let word = &verif_wm.0; let mode = &verif_wm.1; let ghost verif_l0 = env.mon@.wlog; let ghost verif_n0 = verif_it.index() as int;',
+                'body_end': 'proof { lemma_word_status_prefix(verif_l0, env.mon@.wlog, old(env).mon@.wlog.len() as int, verif_n0); }',
+                'invariant': [
+                'env.mon@ == (Mon { wlog: env.mon@.wlog, ..' + M0 + ' })',
+                'env.mon@.wlog.len() == ' + M0 + '.wlog.len() + verif_it.index()',
+                'forall|k: int| 0 <= k < ' + M0 + '.wlog.len() ==> #[trigger] env.mon@.wlog[k] == ' + M0 + '.wlog[k]',
+                'forall|k: int| 0 <= k < verif_it.index() ==> (#[trigger] env.mon@.wlog[' + M0 + '.wlog.len() + k]).what == words@[k].0.verif_id && env.mon@.wlog[' + M0 + '.wlog.len() + k].outcome is Ok',
+                'last_exit_status == last_word_status(env.mon@.wlog, ' + M0 + '.wlog.len() as int, verif_it.index() as int)',
+            ]}}}),
         (SC, ['fn perform_assignments'], {'ret': 'r', 'rewrites': ['strip-async'],
             'token_rewrites': [('crate :: assign :: perform_assignments', 'crate::sc::assign::perform_assignments')],
             'ensures': [
